@@ -341,39 +341,11 @@ def ownOf (w : World) (n : String) : List (String × Member) :=
 def allFieldsOf (w : World) (src : ClassSrc) : List (String × Member) :=
   mergeAll [] (((mroTail w src).reverse.map (ownOf w)) ++ [ownMembers src.entries])
 
-/-- the own-dict entry `n` of the first class of a linearisation that has one -/
-def firstOwnMember (w : World) (n : String) : List String → Option Member
-  | [] => none
-  | k :: ks =>
-    match lookup n (ownOf w k).reverse with
-    | some m => some m
-    | none => firstOwnMember w n ks
-
-/-- `_field_by_name` the new class *inherits* while its metaclass is still running (its own is
-    set last): that of the first Structure class in the MRO tail -/
-def inheritedFieldMap (w : World) : List String → List (String × Member)
-  | [] => []
-  | k :: ks =>
-    match w.find k with
-    | some c => if c.isStruct then c.allFields else inheritedFieldMap w ks
-    | none => inheritedFieldMap w ks
-
-/-- `getattr(clsobj, n)` inside `StructMeta.__new__`: the own entry; else the first own-dict
-    entry along the MRO — a Constant is returned as it is, but a Field is a descriptor whose
-    `__get__(None, clsobj)` answers from the inherited `_field_by_name` (with several bases that
-    can be another base's view of the name) -/
-def resolveAttr (w : World) (src : ClassSrc) (n : String) : Option Member :=
-  match lookup n (ownMembers src.entries).reverse with
-  | some m => some m
-  | none =>
-    match firstOwnMember w n (mroTail w src) with
-    | some (.const v) => some (.const v)
-    | some (.field _ _) => lookup n (inheritedFieldMap w (mroTail w src))
-    | none => none
-
-/-- the members as `getattr` sees them, for every name of `_field_by_name` -/
-def resolvedFields (w : World) (src : ClassSrc) : List (String × Member) :=
-  (allFieldsOf w src).map fun p => (p.1, (resolveAttr w src p.1).getD p.2)
+/-- the members by name as `StructMeta.__new__` reads them when it collects the Constants: the
+    own-dict entries merged along the MRO, i.e. `_field_by_name` itself.  (Until /repo's repair of
+    `names-mismatch:constant-shadowed-in-diamond` this was `getattr(clsobj, name)`, which for a Field
+    answered from the *inherited* `_field_by_name` — in a diamond another branch's view.) -/
+def resolvedFields (w : World) (src : ClassSrc) : List (String × Member) := allFieldsOf w src
 
 def constantsOf (fs : List (String × Member)) : List (String × PyVal) :=
   fs.filterMap fun p => match p.2 with | .const v => some (p.1, v) | _ => none
